@@ -92,6 +92,15 @@ def rsStr : RsResult → String
   | .parked => "rs parked"
   | .unsupported w => s!"unsupported {w}"
 
+/-- the application keeps the result of ReadSlices for its call of ReadBackoff -/
+def rsDone (s : S) (r : RsResult) : S × String :=
+  let s := match r with
+    | .msg _ _ => { s with lastRs := none }
+    | .big _ _ => { s with lastRs := some ["big"] }
+    | .err e => { s with lastRs := some e }
+    | _ => s
+  (s, rsStr r)
+
 /-- a returned call becomes a `ret` event (sorted with the others); otherwise a result line -/
 def callDone (s : S) (tag : String) : CallResult → S × List String
   | .ret e => (s.emit (.ret tag e), [])
@@ -129,12 +138,13 @@ def ctrLine (s : S) : String :=
 def wakeReader (s : S) : S × List String :=
   if s.readerCancelled then
     let (s, r) := ({ s with readerCancelled := false }).finishRs (.err (mkErr ["closed"]))
-    (s, [rsStr r])
+    let (s, l) := rsDone s r
+    (s, [l])
   else if s.parkedHs.isSome then
     let (s', r) := s.readSlices
     match r with
     | .parked => (s', [])
-    | r => (s', [rsStr r])
+    | r => let (s', l) := rsDone s' r; (s', [l])
   else if s.parked then
     let woke : Bool := match s.rd? with
       | some rd => rd.closed || rd.inq != [.block]
@@ -143,7 +153,7 @@ def wakeReader (s : S) : S × List String :=
       let (s, r) := s.readSlices
       match r with
       | .parked => (s, [])
-      | r => (s, [rsStr r])
+      | r => let (s, l) := rsDone s r; (s, [l])
     else (s, [])
   else (s, [])
 
@@ -152,7 +162,7 @@ def sessStep (s : S) (f : List String) : S × List String :=
     let (s, extra) := if wake then wakeReader s else (s, [])
     let (s, evs) := flush s
     (s, evs ++ res ++ extra)
-  if s.noClient && ["rs", "readall", "pal", "peo", "call", "quit", "close", "disconnect", "counters"].contains (f.headD "") then
+  if s.noClient && ["rs", "readall", "pal", "peo", "call", "quit", "close", "disconnect", "counters", "txn", "backoff"].contains (f.headD "") then
     (s, ["noclient"]) else
   match f with
   | ["bufsize", n] => match n.toNat? with
@@ -205,17 +215,20 @@ def sessStep (s : S) (f : List String) : S × List String :=
     if s.parkedDial then done s ["rs parked"] false
     else if s.parkedHs.isSome then
       let (s, r) := s.readSlices
-      done s [rsStr r] false
+      let (s, l) := rsDone s r
+      done s [l] false
     else if s.parked then
       -- the call is still outstanding: report what it does now
       let woke : Bool := match s.rd? with | some rd => rd.closed || rd.inq != [.block] | none => false
       if woke then
         let (s, r) := s.readSlices
-        done s [rsStr r] false
+        let (s, l) := rsDone s r
+        done s [l] false
       else done s ["rs parked"] false
     else
       let (s, r) := s.readSlices
-      done s [rsStr r] false
+      let (s, l) := rsDone s r
+      done s [l] false
   | ["readall"] =>
     match s.readAll with
     | (s, .ok bs) => done s [s!"readall ok {hexOrDash bs}"]
@@ -276,6 +289,16 @@ def sessStep (s : S) (f : List String) : S × List String :=
     | some x => done (s.release x) []
     | none => (s, ["bad-op wgo"])
   | ["counters"] => (s, [ctrLine s])
+  | ["txn", n] => match n.toNat? with
+    | some n => ({ s with txN := n }, [])
+    | none => (s, ["bad-op txn"])
+  | ["backoff"] =>
+    if s.parked || s.parkedDial || s.parkedHs.isSome then (s, ["backoff busy"]) else
+    -- the harness configures ReconnectWaitMin 3 s and ReconnectWaitMax 20 s
+    match s.readBackoff s.lastRs 3000000000 20000000000 with
+    | (s, .now) => (s, ["backoff now"])
+    | (s, .never) => (s, ["backoff never"])
+    | (s, .idle ns) => (s, [s!"backoff {ns / 1000000}ms"])
   | ["store"] => (s, [storeLine s])
   | ["damage", "alter", key, off, val] =>
     match hexNat key, off.toNat?, val.toNat? with
